@@ -184,6 +184,11 @@ def run_unit(name, keep_dir=None, seed=None, rlimit=None, extra_args=()):
                     res.fn_times[fb.get('function')] = fb.get('time', 0) / 1000.0
         except Exception:
             pass
+    if summary is None or 'verification-results' not in (summary or {}):
+        # the front end rejected the file: every error diagnostic is a tool / construct problem
+        for fl in res.failures:
+            hard_errors.append(fl.message + " @ " + "; ".join("%s:%s" % (f, l) for f, l, _ in fl.repo_sites[:2]) + " " + "; ".join(c[0] for c in fl.clauses[:2]))
+        res.failures = []
     if hard_errors or summary is None or 'verification-results' not in (summary or {}):
         res.status = "undecided"
         res.reason = "verus front-end error (unsupported construct or tool failure): " + " | ".join(hard_errors[:5])
